@@ -11,3 +11,11 @@ Definition go_atoi (s : list N) : Z * bool :=
 
 Definition go_parse_uint_0_8 (s : list N) : Z * bool :=
   match Bed.parse_uint8 s with Some n => (Z.of_N n, false) | None => (0%Z, true) end.
+
+(* the same with the error as a code (0 nil, 2 an error), for packages translated with
+   error codes because they compare errors with io.EOF *)
+Definition go_atoi_z (s : list N) : Z * Z :=
+  match atoi s with Some z => (z, 0%Z) | None => (0%Z, 2%Z) end.
+
+Definition go_parse_uint_0_8_z (s : list N) : Z * Z :=
+  match Bed.parse_uint8 s with Some n => (Z.of_N n, 0%Z) | None => (0%Z, 2%Z) end.
